@@ -264,13 +264,15 @@ def Ctx.descOf (s : Ctx) (m : Mod) : Desc :=
           | some t => some (k, (t.feats.filter (·.on)).map (·.name)) }
   else { feats := [], augBy := [], devBy := [], grp := [] }
 
-/-- `lys_compile`: `++change_count`, a fresh compiled module -/
-def compileOne (k : MKey) : M Unit := modS fun s =>
+def tick (n : Nat) (s : Ctx) : Ctx := { s with changeCount := s.changeCount + BitVec.ofNat 16 n, ticks := s.ticks + n }
+
+def installCompiled (k : MKey) (s : Ctx) : Ctx :=
   match s.find k with
   | none => s
-  | some m =>
-    { (s.upd k fun m' => { m' with compiled := some (s.nextId, s.descOf m) }) with
-      changeCount := s.changeCount + 1, ticks := s.ticks + 1, nextId := s.nextId + 1 }
+  | some m => { (s.upd k fun m' => { m' with compiled := some (s.nextId, s.descOf m) }) with nextId := s.nextId + 1 }
+
+/-- `lys_compile`: `++change_count`, a fresh compiled module -/
+def compileOne (k : MKey) : M Unit := modS fun s => installCompiled k (tick 1 s)
 
 /-! ## parsing and loading -/
 
@@ -287,6 +289,11 @@ def latestDecision (s : Ctx) (src : ModSrc) : Option MKey × Latest :=
       (some l.key, { rev := l.latest.rev, dirs := l.latest.dirs })
     else (none, {})
   | none => (none, { rev := true })
+
+/-- the module enters the context and `unres.creating`; `change_count++` -/
+def createMod (src : ModSrc) (l : Latest) (s : Ctx) : Ctx :=
+  tick 1 { s with mods := s.mods ++ [{ newMod src l with parsing := true, broken := true }],
+                  creating := s.creating ++ [(src.name, src.rev)] }
 
 mutual
 /-- `lys_parse_in` (+ `lysp_resolve_import_include`); `check = some rev?` when called through the import callback
@@ -319,8 +326,7 @@ def parseIn : Nat → ModSrc → Option (Option Bytes) → M MKey
             | some ok => updM ok fun m => { m with latest := { m.latest with rev := false, dirs := false } }
             | none => pure ()
             let k : MKey := (src.name, src.rev)
-            modS fun s => { s with mods := s.mods ++ [{ newMod src lflags with parsing := true, broken := true }],
-                                   creating := s.creating ++ [k], changeCount := s.changeCount + 1, ticks := s.ticks + 1 }
+            modS (createMod src lflags)
             forEach src.imports fun (iname, irev) => do
               let t ← parseLoad fuel iname (if irev.isEmpty then none else some irev)
               (if irev.isEmpty then updM t fun m => { m with latest := { m.latest with imp := true } } else pure ())
@@ -395,6 +401,10 @@ def hasCompiledImportR : Nat → MKey → M Bool
             pure true
           else hasCompiledImportR fuel t
 
+/-- `mod->implemented = 1; mod->to_compile = 1; ly_set_add(&unres->implementing, mod)` -/
+def markImpl (k : MKey) (s : Ctx) : Ctx :=
+  { (s.upd k fun x => { x with implemented := true, toCompile := true }) with implementing := s.implementing ++ [k] }
+
 /-- one augment / deviation statement: mark the target, return the modules to look at -/
 def markTarget (k : MKey) (isAug : Bool) (modSet : List MKey) (tname : Bytes) : M (List MKey) := do
   let s ← getS
@@ -431,8 +441,7 @@ def implementCore : Nat → MKey → M Bool
       match s.getImplemented m.src.name with
       | some _ => failS EDENIED
       | none => do
-        modS fun s => { (s.upd k fun x => { x with implemented := true, toCompile := true }) with
-                        implementing := s.implementing ++ [k] }
+        modS (markImpl k)
         -- lys_precompile_augments_deviations
         match m.src.fault .impl with
         | some rc => failS rc
@@ -607,7 +616,7 @@ def compileChecked (k : MKey) : M Unit := do
     match compileFault s m with
     | some rc => do
       -- `lys_compile` counts before it can fail
-      modS fun s => { s with changeCount := s.changeCount + 1, ticks := s.ticks + 1 }
+      modS (tick 1)
       failS rc
     | none => compileOne k
 
@@ -748,8 +757,8 @@ def forward : Op → M Unit
   | .setOpt ex pp => do
     let s ← getS
     (if pp && !s.privParsed then do
-      modS fun s => { s with privParsed := true, changeCount := s.changeCount + 4, ticks := s.ticks + 4,   -- the four implemented internal modules
-                             mods := s.mods.map fun m => if m.implemented then { m with toCompile := true } else m }
+      modS fun s => tick 4 { s with privParsed := true,           -- (tick 4: the four implemented internal modules)
+                                    mods := s.mods.map fun m => if m.implemented then { m with toCompile := true } else m }
       depSetsM none
       compileAll
      else pure ())
